@@ -296,12 +296,13 @@ Proof. intro H. unfold libxml_init_once. rewrite H. reflexivity. Qed.
 (* the heart of C17: on a topology whose caches are all valid a consulting call changes nothing and
    writes nothing - for XML export provided the statics it consults were used once before *)
 Lemma cons_run_valid t tp g c :
-  topo_valid tp = true -> always_writes c = false -> (uses_statics c = false \/ statics_warm g = true) ->
+  topo_valid tp = true -> warm_for g c = true ->
   fst (fst (fst (cons_run t tp g c))) = tp /\ snd (fst (fst (cons_run t tp g c))) = g /\
   writes (snd (cons_run t tp g c)) = [].
 Proof.
-  intros V AW W. unfold topo_valid in V. apply andb_true_iff in V. destruct V as [Vd Vm].
-  destruct c as [| | | | |q a| | | | | |[|]]; simpl; try discriminate; try (split; [reflexivity | split; reflexivity]).
+  intros V W. unfold topo_valid in V. apply andb_true_iff in V. destruct V as [Vd Vm].
+  destruct c as [| | | | |q a| | | | | |[|]]; simpl; try (split; [reflexivity | split; reflexivity]);
+    try (simpl in W; rewrite W; simpl; split; [reflexivity | split; reflexivity]).
   - (* CDistGet *)
     pose proof (dists_refresh_valid t (t_dists tp) Vd) as [E1 E2].
     destruct (dists_refresh t (t_dists tp)) as [ds e]. simpl in *. subst ds.
@@ -314,7 +315,7 @@ Proof.
     unfold ma_refresh_one. rewrite C. rewrite (forallb_nth_error _ _ _ _ Vm E). simpl.
     rewrite (replace_nth_same _ _ _ E). split; [apply set_mattrs_same | split; reflexivity].
   - (* CExportXml *)
-    destruct W as [W|W]; [discriminate|]. unfold statics_warm in W. apply andb_true_iff in W. destruct W as [W1 W2].
+    simpl in W. unfold statics_warm in W. apply andb_true_iff in W. destruct W as [W1 W2].
     pose proof (dists_refresh_valid t (t_dists tp) Vd) as [E1 E2].
     destruct (dists_refresh t (t_dists tp)) as [ds e]. simpl in *. subst ds.
     rewrite (static_use_checked _ _ W1).
@@ -349,7 +350,7 @@ Qed.
 
 (* a call a reader may make: consulting, and if it consults statics they are warm *)
 Definition reader_ok (g : glob) (o : op) : bool :=
-  match o with OCons _ c => negb (always_writes c) && (negb (uses_statics c) || statics_warm g) | _ => false end.
+  match o with OCons _ c => warm_for g c | _ => false end.
 
 Lemma run_op_reader s o :
   all_valid s = true -> reader_ok (s_glob s) o = true ->
@@ -358,10 +359,7 @@ Proof.
   intros V R. destruct o as [t|t c|t|t m|t c]; try discriminate. simpl in R. simpl.
   destruct (get_topo s t) as [tp|] eqn:G; [|split; reflexivity].
   destruct (t_loaded tp) eqn:L; [|split; reflexivity].
-  apply andb_true_iff in R. destruct R as [AW R]. apply negb_true_iff in AW.
-  assert (W : uses_statics c = false \/ statics_warm (s_glob s) = true).
-  { apply orb_true_iff in R. destruct R as [R|R]; [left; apply negb_true_iff; exact R | right; exact R]. }
-  pose proof (cons_run_valid t tp (s_glob s) c (all_valid_topo s t tp V G L) AW W) as [E1 [E2 E3]].
+  pose proof (cons_run_valid t tp (s_glob s) c (all_valid_topo s t tp V G L) R) as [E1 [E2 E3]].
   destruct (cons_run t tp (s_glob s) c) as [[[tp' g'] r] e]. simpl in *. subst tp' g'.
   split; [|exact E3]. rewrite (set_slot_same _ _ _ (get_topo_some _ _ _ G)). destruct s. reflexivity.
 Qed.
@@ -450,9 +448,9 @@ Proof. change (@nil ev) with (events_of s []) at 1. apply map_nth. Qed.
 (** * Refresh and load *)
 
 Theorem refresh_validates t tp :
-  t_nodist tp = false -> t_nomemattr tp = false -> topo_valid (fst (do_refresh t tp)) = true.
+  t_nodist tp = false -> topo_valid (fst (do_refresh t tp)) = true.
 Proof.
-  intros Hd Hm. unfold do_refresh. rewrite Hd, Hm.
+  intros Hd. unfold do_refresh. rewrite Hd.
   pose proof (dists_refresh_validates t (t_dists tp)) as P1.
   pose proof (mas_refresh_from_validates t (t_mattrs tp) 0) as P2.
   destruct (dists_refresh t (t_dists tp)) as [ds e1]. destruct (mas_refresh_from t 0 (t_mattrs tp)) as [ms e2].
@@ -463,48 +461,40 @@ Lemma do_refresh_loaded t tp : t_loaded (fst (do_refresh t tp)) = t_loaded tp.
 Proof.
   unfold do_refresh.
   destruct (if t_nodist tp then (t_dists tp, []) else dists_refresh t (t_dists tp)) as [ds e1].
-  destruct (if t_nomemattr tp then (t_mattrs tp, []) else mas_refresh_from t 0 (t_mattrs tp)) as [ms e2]. reflexivity.
+  destruct (mas_refresh_from t 0 (t_mattrs tp)) as [ms e2]. reflexivity.
 Qed.
 
 Lemma do_restrict_loaded t tp lives : t_loaded (fst (do_restrict t tp lives)) = t_loaded tp.
 Proof.
   unfold do_restrict.
   destruct (if t_nodist tp then (t_dists tp, []) else dists_invalidate t (set_lives (t_dists tp) lives)) as [ds e1].
-  destruct (if t_nomemattr tp then (t_mattrs tp, []) else mas_need_refresh_from t 0 (t_mattrs tp)) as [ms e2]. reflexivity.
+  destruct (mas_need_refresh_from t 0 (t_mattrs tp)) as [ms e2]. reflexivity.
 Qed.
 
-(* refresh validates also under the NO_* flags provided what the flag makes it skip is already valid *)
+(* refresh validates also under NO_DISTANCES provided the structures it then skips are valid (they are
+   born valid and, under that flag, restrict never invalidates them) *)
 Lemma do_refresh_validates_gen t tp :
   (t_nodist tp = true -> forallb d_valid (t_dists tp) = true) ->
-  (t_nomemattr tp = true -> forallb a_valid (t_mattrs tp) = true) ->
   topo_valid (fst (do_refresh t tp)) = true.
 Proof.
-  intros Hd Hm. unfold do_refresh.
+  intros Hd. unfold do_refresh.
   assert (P1 : forallb d_valid (fst (if t_nodist tp then (t_dists tp, []) else dists_refresh t (t_dists tp))) = true)
     by (destruct (t_nodist tp); [apply Hd; reflexivity | apply dists_refresh_validates]).
-  assert (P2 : forallb a_valid (fst (if t_nomemattr tp then (t_mattrs tp, []) else mas_refresh_from t 0 (t_mattrs tp))) = true)
-    by (destruct (t_nomemattr tp); [apply Hm; reflexivity | apply mas_refresh_from_validates]).
+  pose proof (mas_refresh_from_validates t (t_mattrs tp) 0) as P2.
   destruct (if t_nodist tp then (t_dists tp, []) else dists_refresh t (t_dists tp)) as [ds e1].
-  destruct (if t_nomemattr tp then (t_mattrs tp, []) else mas_refresh_from t 0 (t_mattrs tp)) as [ms e2].
+  destruct (mas_refresh_from t 0 (t_mattrs tp)) as [ms e2].
   cbn [fst] in *. unfold topo_valid. cbn [t_dists t_mattrs set_dists set_mattrs]. rewrite P1, P2. reflexivity.
 Qed.
 
 Lemma do_restrict_keeps_skipped t tp lives :
   (t_nodist (fst (do_restrict t tp lives)) = t_nodist tp) /\
-  (t_nomemattr (fst (do_restrict t tp lives)) = t_nomemattr tp) /\
-  (t_nodist tp = true -> t_dists (fst (do_restrict t tp lives)) = t_dists tp) /\
-  (t_nomemattr tp = true -> t_mattrs (fst (do_restrict t tp lives)) = t_mattrs tp).
+  (t_nodist tp = true -> t_dists (fst (do_restrict t tp lives)) = t_dists tp).
 Proof.
   unfold do_restrict.
-  destruct (t_nodist tp) eqn:Nd; destruct (t_nomemattr tp) eqn:Nm.
-  - cbn. rewrite Nd, Nm. repeat split; reflexivity.
-  - destruct (mas_need_refresh_from t 0 (t_mattrs tp)) as [ms e2]. cbn. rewrite Nd, Nm.
-    repeat split; try reflexivity. discriminate.
-  - destruct (dists_invalidate t (set_lives (t_dists tp) lives)) as [ds e1]. cbn. rewrite Nd, Nm.
-    repeat split; try reflexivity. discriminate.
-  - destruct (dists_invalidate t (set_lives (t_dists tp) lives)) as [ds e1].
-    destruct (mas_need_refresh_from t 0 (t_mattrs tp)) as [ms e2]. cbn. rewrite Nd, Nm.
-    repeat split; try reflexivity; discriminate.
+  destruct (mas_need_refresh_from t 0 (t_mattrs tp)) as [ms e2].
+  destruct (t_nodist tp) eqn:Nd.
+  - cbn. rewrite Nd. split; reflexivity.
+  - destruct (dists_invalidate t (set_lives (t_dists tp) lives)) as [ds e1]. cbn. rewrite Nd. split; [reflexivity | discriminate].
 Qed.
 
 (* the end of hwloc_topology_load (after fix 970d793): loaded and every cache valid, whatever the flags,
@@ -535,17 +525,15 @@ Proof.
   destruct (c_bind c) as [r|].
   - assert (X : exists tp2 e5, (match r with Some lives => do_restrict t tp1 lives | None => (tp1, []) end) = (tp2, e5) /\
                  t_loaded tp2 = true /\
-                 (t_nodist tp2 = true -> forallb d_valid (t_dists tp2) = true) /\
-                 (t_nomemattr tp2 = true -> forallb a_valid (t_mattrs tp2) = true)).
+                 (t_nodist tp2 = true -> forallb d_valid (t_dists tp2) = true)).
     { destruct r as [lives|].
-      - pose proof (do_restrict_loaded t tp1 lives) as L. pose proof (do_restrict_keeps_skipped t tp1 lives) as [K1 [K2 [K3 K4]]].
+      - pose proof (do_restrict_loaded t tp1 lives) as L. pose proof (do_restrict_keeps_skipped t tp1 lives) as [K1 K3].
         destruct (do_restrict t tp1 lives) as [tp2 e5]. cbn [fst] in *. exists tp2, e5. split; [reflexivity|].
-        split; [rewrite L; reflexivity|]. split.
-        + intro H. rewrite K1 in H. rewrite (K3 H). apply V1.
-        + intro H. rewrite K2 in H. rewrite (K4 H). apply V1.
-      - exists tp1, []. split; [reflexivity|]. split; [reflexivity|]. split; intro; apply V1. }
-    destruct X as [tp2 [e5 [E [L2 [D2 M2]]]]]. rewrite E.
-    pose proof (do_refresh_loaded t tp2) as L3. pose proof (do_refresh_validates_gen t tp2 D2 M2) as V3.
+        split; [rewrite L; reflexivity|].
+        intro H. rewrite K1 in H. rewrite (K3 H). apply V1.
+      - exists tp1, []. split; [reflexivity|]. split; [reflexivity|]. intro; apply V1. }
+    destruct X as [tp2 [e5 [E [L2 D2]]]]. rewrite E.
+    pose proof (do_refresh_loaded t tp2) as L3. pose proof (do_refresh_validates_gen t tp2 D2) as V3.
     destruct (do_refresh t tp2) as [tp3 e6]. cbn [fst] in *. split; [rewrite L3; exact L2 | exact V3].
   - cbn [fst]. split; [reflexivity|]. unfold topo_valid. destruct V1 as [A B]. rewrite A, B. reflexivity.
 Qed.
@@ -629,7 +617,8 @@ Qed.
 
 Lemma fp_cons_run t tp g c : fp_all t (snd (cons_run t tp g c)) = true.
 Proof.
-  destruct c as [| | | | |q a| | | | | |[|]]; cbn [cons_run]; try solve [fp_simpl].
+  destruct c as [| | | | |q a| | | | | |[|]]; cbn [cons_run]; try solve [fp_simpl];
+    try solve [destruct (mem_static SSynthWarned (g_checked g)); fp_simpl].
   - pose proof (fp_dists_refresh t (t_dists tp)) as P. destruct (dists_refresh t (t_dists tp)) as [ds e]. cbn [snd] in *.
     fp_auto.
   - destruct (nth_error (t_mattrs tp) a) as [m|]; [|fp_simpl]. destruct (a_conv m) eqn:C; [fp_simpl|].
@@ -649,9 +638,8 @@ Proof.
   assert (P1 : fp_all t (snd (if t_nodist tp then (t_dists tp, []) else dists_invalidate t (set_lives (t_dists tp) lives))) = true)
     by (destruct (t_nodist tp); [reflexivity | apply fp_dists_invalidate]).
   destruct (if t_nodist tp then (t_dists tp, []) else dists_invalidate t (set_lives (t_dists tp) lives)) as [ds e1].
-  assert (P2 : fp_all t (snd (if t_nomemattr tp then (t_mattrs tp, []) else mas_need_refresh_from t 0 (t_mattrs tp))) = true)
-    by (destruct (t_nomemattr tp); [reflexivity | apply fp_mas_need_refresh_from]).
-  destruct (if t_nomemattr tp then (t_mattrs tp, []) else mas_need_refresh_from t 0 (t_mattrs tp)) as [ms e2].
+  pose proof (fp_mas_need_refresh_from t (t_mattrs tp) 0) as P2.
+  destruct (mas_need_refresh_from t 0 (t_mattrs tp)) as [ms e2].
   cbn [snd] in *. destruct (t_nocpukinds tp); fp_auto.
 Qed.
 
@@ -661,9 +649,8 @@ Proof.
   assert (P1 : fp_all t (snd (if t_nodist tp then (t_dists tp, []) else dists_refresh t (t_dists tp))) = true)
     by (destruct (t_nodist tp); [reflexivity | apply fp_dists_refresh]).
   destruct (if t_nodist tp then (t_dists tp, []) else dists_refresh t (t_dists tp)) as [ds e1].
-  assert (P2 : fp_all t (snd (if t_nomemattr tp then (t_mattrs tp, []) else mas_refresh_from t 0 (t_mattrs tp))) = true)
-    by (destruct (t_nomemattr tp); [reflexivity | apply fp_mas_refresh_from]).
-  destruct (if t_nomemattr tp then (t_mattrs tp, []) else mas_refresh_from t 0 (t_mattrs tp)) as [ms e2].
+  pose proof (fp_mas_refresh_from t (t_mattrs tp) 0) as P2.
+  destruct (mas_refresh_from t 0 (t_mattrs tp)) as [ms e2].
   cbn [snd] in *. destruct (t_nocpukinds tp); fp_auto.
 Qed.
 
